@@ -899,6 +899,29 @@ pub fn gen_pipe(files: &BTreeMap<String, syn::File>, out: &mut String) {
             Err(e) => println!("ERROR GenPipe.v {}: {}", name, e),
         }
     }
+    // the trait-default inverted_zip of GenericSequence (src/sequence.rs): `self` is any sequence taken by value
+    {
+        let res: R<(String, (String, String))> = (|| {
+            let f = files.get("sequence.rs").ok_or("sequence.rs missing")?;
+            let tr = f
+                .items
+                .iter()
+                .find_map(|it| if let Item::Trait(t) = it { if t.ident == "GenericSequence" { Some(t) } else { None } } else { None })
+                .ok_or("trait GenericSequence not found")?;
+            let m = tr
+                .items
+                .iter()
+                .find_map(|ti| if let syn::TraitItem::Fn(m) = ti { if m.sig.ident == "inverted_zip" { Some(m) } else { None } } else { None })
+                .ok_or("default inverted_zip not found")?;
+            let body = m.default.as_ref().ok_or("inverted_zip has no default body")?;
+            let fake = syn::ImplItemFn { attrs: vec![], vis: syn::Visibility::Inherited, defaultness: None, sig: m.sig.clone(), block: body.clone() };
+            translate(&fake, "T")
+        })();
+        match res {
+            Ok((t, _)) => writeln!(out, "Definition gen_default_inverted_zip : fnprog :=\n  {}.\n", t).unwrap(),
+            Err(e) => println!("ERROR GenPipe.v default_inverted_zip: {}", e),
+        }
+    }
     let is_iter = |t: &syn::Type| matches!(t, syn::Type::Path(p) if p.path.segments.last().map(|s| s.ident == "GenericArrayIter").unwrap_or(false));
     {
         let res: R<String> = (|| {
